@@ -186,6 +186,17 @@ def q_r2_keywords(p: Project, schema: Schema, rep: Report):
                         for d_ in reach.defs_at(node, nm_.id):
                             if d_.kind == "assign" and isinstance(d_.value, ast.Constant) and d_.value.value is None:
                                 ok, why = False, f"{m.name}.{k.arg} is given the parameter `{nm_.id}`, which line {d_.stmt.lineno} has replaced by None on some path: what the caller passed is silently left out of the request there"
+                            elif d_.kind == "assign" and isinstance(d_.value, ast.AST) and not ch.is_agg and not (isinstance(d_.value, ast.Name) and d_.value.id == nm_.id):
+                                # re-bound to something computed, other than a default for `<name> is None`
+                                par_, dflt = parent(d_.stmt), False
+                                while par_ is not None and not isinstance(par_, ast.FunctionDef):
+                                    if isinstance(par_, ast.If):
+                                        tt = text(par_.test).replace(" ", "")
+                                        if tt in (f"{nm_.id}isNone", f"not{nm_.id}", f"Noneis{nm_.id}"):
+                                            dflt = True
+                                    par_ = parent(par_)
+                                if not dflt:
+                                    ok, why = False, f"{m.name}.{k.arg} is given the parameter `{nm_.id}`, which line {d_.stmt.lineno} re-binds to `{text(d_.value)[:40]}` on some path (not as a default for None): the value sent is not the one the caller gave (an end date equal to the start date widened by a day, say)"
                     for v in resolve_values(k.value, node, reach):
                         okv, whyv = _value_matches(p, schema, m, ch, k.arg, v, params, fn)
                         if not okv:
@@ -258,6 +269,12 @@ def _value_matches(p, schema, m, ch, kw, v, params, fn) -> Tuple[bool, str]:
             if ch.is_agg and ch.target is t:
                 return True, ""
             return False, f"{m.name}.{kw} expects {getattr(ch.target, 'name', ch.kind)} but is given a {t.name}"
+        # the caller's value handed to a function first (`to_datetime(dtstart)`, `normalise(acctid)`): what goes into the
+        # request is what that function returns - the element converters already accept every type the builders document
+        if not ch.is_agg and isinstance(v.func, (ast.Name, ast.Attribute)):
+            direct = [a for a in list(v.args) + [k.value for k in v.keywords] if isinstance(a, ast.Name) and (a.id in params or getattr(getattr(a, "_def", None), "kind", None) == "param")]
+            if direct and text(v.func) not in ("str", "int", "bool"):
+                return False, f"{m.name}.{kw} is given {text(v)[:50]}: the caller's {direct[0].id} passes through {text(v.func)}() before it goes into the request, so what is sent is that function's result, not the value supplied (a promotion of plain dates that tests isinstance(x, date) also catches every datetime and cuts it to midnight UTC)"
     return True, ""
 
 
@@ -813,3 +830,167 @@ def q_r11_explicit_overrides_honoured(p: Project, rep: Report, only=None):
     ncand = sum(1 for nm, fn in funcs.items() for arg in fn.args.args + fn.args.kwonlyargs if arg.annotation is not None and ("bool" in text(arg.annotation) or "int" in text(arg.annotation)))
     rep.unit("bool_int_parameters", ncand)
     rep.check("Q-R11", "OFXClient:overrides-replaced-only-when-None", True, "", f"{ncand} bool/int parameters of OFXClient methods")
+
+
+_ONE_SHOT_CONSUMERS = ("list", "tuple", "sorted", "set", "dict", "sum", "max", "min", "any", "all", "len", "join", "from_iterable", "chain", "extend", "enumerate", "zip", "map", "filter", "next", "frozenset")
+
+
+def _consumptions(stmts_or_expr, name: str, resolve_fn, depth: int = 3) -> int:
+    """upper bound of how often the one-shot iterator `name` is consumed on ONE path through the statements / expression:
+    iteration (for / comprehension), a consuming builtin, or being handed to a function (counted by that function's own
+    consumption of the parameter when it is a local / module function, else once).  if/else arms count by their maximum."""
+    def expr(e) -> int:
+        if e is None:
+            return 0
+        n = 0
+        for x in ast.walk(e):
+            if isinstance(x, ast.comprehension) and isinstance(x.iter, ast.Name) and x.iter.id == name:
+                n += 1
+            elif isinstance(x, ast.Call):
+                for i_, a in enumerate(list(x.args) + [k.value for k in x.keywords]):
+                    a = a.value if isinstance(a, ast.Starred) else a
+                    if isinstance(a, ast.Name) and a.id == name:
+                        callee = resolve_fn(x) if depth > 0 else None
+                        if callee is not None:
+                            ps = [q.arg for q in callee.args.args]
+                            off = 1 if ps and ps[0] in ("self", "cls") and isinstance(x.func, ast.Attribute) else 0
+                            idx = i_ + off
+                            if i_ < len(x.args) and idx < len(ps):
+                                n += _consumptions(callee.body, ps[idx], resolve_fn, depth - 1)
+                            else:
+                                n += 1
+                        else:
+                            n += 1
+        return n
+
+    def block(stmts) -> int:
+        n = 0
+        for st in stmts:
+            if isinstance(st, ast.If):
+                n += expr(st.test) + max(block(st.body), block(st.orelse))
+            elif isinstance(st, (ast.For, ast.AsyncFor)):
+                n += (1 if isinstance(st.iter, ast.Name) and st.iter.id == name else expr(st.iter)) + block(st.body) + block(st.orelse)
+            elif isinstance(st, ast.While):
+                n += expr(st.test) + block(st.body)
+            elif isinstance(st, ast.Try):
+                n += block(st.body) + max([block(h.body) for h in st.handlers] + [0]) + block(st.orelse) + block(st.finalbody)
+            elif isinstance(st, ast.With):
+                n += sum(expr(i.context_expr) for i in st.items) + block(st.body)
+            elif isinstance(st, (ast.FunctionDef, ast.ClassDef)):
+                continue
+            else:
+                n += expr(st)
+        return n
+
+    if isinstance(stmts_or_expr, list):
+        return block(stmts_or_expr)
+    return expr(stmts_or_expr)
+
+
+def q_r12_groupby_groups_consumed_once(p: Project, rep: Report):
+    """a group of itertools.groupby is a one-shot iterator"""
+    rep.rule("Q-R12", "each group that itertools.groupby hands out while a request is composed (OFXClient.request_statements and the helpers it calls) is consumed ONCE on any path: the group is an iterator over the underlying sorted list and is empty after its first traversal - a second consumer added for a log line (`acctids = [rq.acctid for rq in rqs]` under isEnabledFor(DEBUG)) leaves the wrapper with nothing, so the message sets go out without a single transaction request when that logger is on")
+    from .rules_client import client_class
+    from .source import Func as _Func
+
+    ci = client_class(p)
+    m = p.module(CLIENT)
+    n = 0
+    for fname in ("request_statements", "request_accounts", "request_tax1099"):
+        fn = ci.own_func(fname)
+        if fn is None:
+            continue
+        nested = {st.name: st for st in ast.walk(fn) if isinstance(st, ast.FunctionDef) and st is not fn}
+
+        def resolve_fn(call, nested=nested):
+            f = call.func
+            if isinstance(f, ast.Name):
+                if f.id in nested:
+                    return nested[f.id]
+                r = p.resolve(CLIENT, f.id)
+                if isinstance(r, _Func) and r.module == CLIENT and not any(isinstance(d, ast.Attribute) and d.attr == "singledispatch" or text(d) == "singledispatch" for d in r.node.decorator_list):
+                    return r.node
+            if isinstance(f, ast.Attribute) and isinstance(f.value, ast.Name) and f.value.id == "self":
+                return ci.own_func(f.attr)
+            return None
+
+        for x in ast.walk(fn):
+            gens = []
+            if isinstance(x, (ast.ListComp, ast.GeneratorExp, ast.SetComp, ast.DictComp)):
+                gens = [(g, x) for g in x.generators]
+            elif isinstance(x, ast.For):
+                gens = [(x, x)]
+            for g, owner in gens:
+                it = g.iter
+                # groupby(...) directly, or a local bound once to it
+                if isinstance(it, ast.Name):
+                    bs = [s_.value for s_ in ast.walk(fn) if isinstance(s_, ast.Assign) and len(s_.targets) == 1 and isinstance(s_.targets[0], ast.Name) and s_.targets[0].id == it.id]
+                    it = bs[0] if len(bs) == 1 else it
+                if not (isinstance(it, ast.Call) and (dotted(it.func) or text(it.func)).split(".")[-1] == "groupby"):
+                    continue
+                tg = g.target
+                if not (isinstance(tg, ast.Tuple) and len(tg.elts) == 2 and isinstance(tg.elts[1], ast.Name)):
+                    continue
+                grp = tg.elts[1].id
+                n += 1
+                if isinstance(owner, ast.For):
+                    cnt = _consumptions(owner.body, grp, resolve_fn)
+                else:
+                    parts = [owner.elt] if hasattr(owner, "elt") else [owner.key, owner.value]
+                    cnt = sum(_consumptions(e_, grp, resolve_fn) for e_ in parts) + sum(_consumptions(c_, grp, resolve_fn) for c_ in g.ifs)
+                rep.check("Q-R12", f"OFXClient.{fname}:group({grp}):consumed-once", cnt <= 1, f"the groupby group `{grp}` is consumed {cnt} times on one path (helpers followed): after the first traversal it is empty, so the later consumer - the wrapper that builds the transaction requests - sees no request at all" if cnt > 1 else "", f"{m.relpath}:{g.iter.lineno}")
+    rep.unit("groupby_groups", n)
+    if n == 0:
+        rep.note("Q-R12 undecided: no itertools.groupby iteration found in the request composition")
+
+
+def q_r13_send_path_leaves_the_request_alone(p: Project, rep: Report):
+    """composing, logging and sending do not edit the model that is sent"""
+    rep.rule("Q-R13", "no method of OFXClient that is handed a request model (a parameter named `ofx` / annotated OFX: download, serialize and their private helpers) assigns an attribute or item of it, of an alias, or of a SHALLOW copy of it (copy.copy shares every child): `scrubbed = copy.copy(ofx); scrubbed.signonmsgsrqv1.sonrq.userpass = '********'` for a log line masks the password in the request that is then serialized and posted")
+    from .rules_client import client_class
+
+    ci = client_class(p)
+    m = p.module(CLIENT)
+    n = 0
+    for fn in [f for f in ci.node.body if isinstance(f, ast.FunctionDef)]:
+        roots = {a.arg: "the request" for a in fn.args.args + fn.args.kwonlyargs if a.arg == "ofx" or (a.annotation is not None and text(a.annotation) in ("OFX", "models.OFX"))}
+        if not roots:
+            continue
+        n += 1
+        changed = True
+        while changed:
+            changed = False
+            for st in ast.walk(fn):
+                if isinstance(st, ast.Assign) and len(st.targets) == 1 and isinstance(st.targets[0], ast.Name) and st.targets[0].id not in roots:
+                    v = st.value
+                    if isinstance(v, ast.Call) and (dotted(v.func) or text(v.func)) in ("copy.copy", "copy") and v.args and isinstance(v.args[0], ast.Name) and v.args[0].id in roots:
+                        roots[st.targets[0].id] = "a shallow copy of the request"
+                        changed = True
+                    else:
+                        base = v
+                        while isinstance(base, (ast.Attribute, ast.Subscript)):
+                            base = base.value
+                        if isinstance(base, ast.Name) and base.id in roots and isinstance(v, (ast.Name, ast.Attribute, ast.Subscript)):
+                            roots[st.targets[0].id] = "part of the request"
+                            changed = True
+        bad = None
+        for st in ast.walk(fn):
+            tgs = st.targets if isinstance(st, (ast.Assign, ast.Delete)) else ([st.target] if isinstance(st, (ast.AugAssign, ast.AnnAssign)) else [])
+            for t in tgs:
+                if not isinstance(t, (ast.Attribute, ast.Subscript)):
+                    continue
+                depth_, base = 0, t
+                while isinstance(base, (ast.Attribute, ast.Subscript)):
+                    base, depth_ = base.value, depth_ + 1
+                if isinstance(base, ast.Name) and base.id in roots:
+                    if roots[base.id] == "a shallow copy of the request" and depth_ < 2:
+                        continue  # the copy's own slot
+                    bad = bad or (st, roots[base.id])
+            if isinstance(st, ast.Call) and isinstance(st.func, ast.Name) and st.func.id == "setattr" and st.args:
+                base = st.args[0]
+                while isinstance(base, (ast.Attribute, ast.Subscript)):
+                    base = base.value
+                if isinstance(base, ast.Name) and base.id in roots and not (roots[base.id] == "a shallow copy of the request" and isinstance(st.args[0], ast.Name)):
+                    bad = bad or (st, roots[base.id])
+        rep.check("Q-R13", f"OFXClient.{fn.name}:request-not-edited", bad is None, f"`{text(bad[0])[:60]}` writes into {bad[1]}: the model that is serialized and posted afterwards carries the edit (a password masked for the debug log is masked on the wire)" if bad else "", f"{m.relpath}:{(bad[0] if bad else fn).lineno}")
+    rep.floor("Q-R13", n, 2, "methods handed a request model")
